@@ -86,6 +86,47 @@ func C04_Openers() {
 	vf.Reach("openers")
 }
 
+var c04RepPrefixes = []string{"", "//", "/*", "\"", "`", "'", "a := \"", "x := 1 //", "f(", "[", "{"}
+var c04RepCounts = []int{1, 2, 9, 10, 11, 12, 13, 20}
+var c04RepSuffixes = []string{"", "\n", "*/ b := 2", "\"\nb := 2"}
+
+// C04_Repeat: an arbitrary unit (1..2 bytes, all 256 values each) repeated up
+// to 20 times - directly or one per line - after a literal/comment/bracket
+// opener: the parser's and scanner's counters (error-list cap, error-recovery
+// progress counters, one error per line) are crossed by repetition, which
+// arbitrary buffers of the bounded length cannot do.
+func C04_Repeat() {
+	pre := c04RepPrefixes[vf.Choice("prefix", len(c04RepPrefixes))]
+	k := c04RepCounts[vf.Choice("count", len(c04RepCounts))]
+	perLine := vf.Choice("perline", 2) == 1
+	suf := c04RepSuffixes[vf.Choice("suffix", len(c04RepSuffixes))]
+	n := 1
+	if Tier() > 0 {
+		n = 1 + vf.Choice("n", 2)
+	}
+	unit := vf.Bytes("unit", n)
+	var src []byte
+	src = append(src, pre...)
+	for j := 0; j < k; j++ {
+		src = append(src, unit...)
+		if perLine {
+			src = append(src, '\n')
+		}
+	}
+	src = append(src, suf...)
+	// the parser entry point on its own (its constructor scans the first token)
+	var perr error
+	res := vf.Guard(func() {
+		fs := parser.NewFileSet()
+		f := fs.AddFile("(main)", -1, len(src))
+		_, perr = parser.NewParser(f, src, nil).ParseFile()
+	}, 6000000)
+	vf.Assert(res == 0, "NewParser+ParseFile return a result or an error (no panic, no hang) on a repeated unit: "+vf.LastGuard())
+	_ = perr
+	checkTotal(src, "a repeated unit", false)
+	vf.Reach("repeat")
+}
+
 // C04_ModuleBody: the same bytes as the body of an imported source module.
 func C04_ModuleBody() {
 	maxN := 2
